@@ -133,6 +133,53 @@ Fixpoint decode_scan (c : ks) (regs : list (list N * list N)) : option (list (li
       end
   end.
 
+(* ---------- codecV2.decodeRegionError ---------- *)
+(* the parts of an errorpb.Error that carry keys: KeyNotInRegion (key, region bounds), EpochNotMatch (current regions),
+   BucketVersionNotMatch (bucket keys); all bounds memcomparable *)
+Record region_error := mkre {
+  re_knir : option (list N * list N * list N);
+  re_epoch : option (list (list N * list N));
+  re_buckets : option (list (list N))
+}.
+(* None = DecodeResponse fails as a whole. KeyNotInRegion: a key or a range outside the keyspace is an error;
+   EpochNotMatch: regions outside the keyspace are dropped; BucketVersionNotMatch: DecodeBucketKeys *)
+Definition decode_region_error (c : ks) (re : region_error) : option region_error :=
+  match (match re_knir re with
+         | None => Some None
+         | Some (k, s, e) =>
+             match decode_key c k, decode_region_range c s e with
+             | Some k', ROk s' e' => Some (Some (k', s', e'))
+             | _, _ => None
+             end
+         end) with
+  | None => None
+  | Some kn =>
+      match (match re_buckets re with
+             | None => Some None
+             | Some bs => match decode_bucket_keys c bs with Some l => Some (Some l) | None => None end
+             end) with
+      | None => None
+      | Some bv =>
+          match (match re_epoch re with
+                 | None => Some None
+                 | Some regs => match decode_scan c regs with Some l => Some (Some l) | None => None end
+                 end) with
+          | None => None
+          | Some ep => Some (mkre kn ep bv)
+          end
+      end
+  end.
+
+(* apicodec.DecodeKey(encoded, V2): checkV2Key, then split after the four prefix bytes *)
+Definition split_v2_key (b : list N) : option (list N * list N) :=
+  match b with
+  | m :: b1 :: b2 :: b3 :: rest => if (m =? 114) || (m =? 120) then Some ([m; b1; b2; b3], rest) else None
+  | _ => None
+  end.
+
+(* a response as the list of its key-bearing fields: DecodeResponse decodes every one or fails as a whole *)
+Definition decode_fields (c : ks) (fs : list (list N)) : option (list (list N)) := map_opt (decode_key c) fs.
+
 (* ---------- ParseKeyspaceID (checkV2Key + the low three bytes) ---------- *)
 Definition parse_keyspace_id (b : list N) : option N :=
   match b with
